@@ -34,9 +34,8 @@ ASSUMPTIONS = ["input is one connected oriented manifold triangulated surface wi
                "feature detection itself (which edges are features) is C15's subject; here only its effect on the cutter's "
                "guarantees is observed; inputs with a (near) zero-area triangle are cut without a feature detector"]
 
-# set to True once scratch/fixes/C16-4-stale-singularity-tree-attribute.diff is in /repo: cut_twice then also cuts twice with
-# features under config.display_duplicate_attribute_warning = True
-STALE_TREE_ATTRIBUTE_FIXED = os.environ.get("C16_STALE_TREE_FIXED", "0") == "1"     # (env override: development aid)
+# cut_twice also cuts twice with features under config.display_duplicate_attribute_warning = True (finding F-C16-5)
+STALE_TREE_ATTRIBUTE_FIXED = os.environ.get("C16_STALE_TREE_FIXED", "1") == "1"     # F-C16-5 fixed in /repo by 0930385 (set the variable to 0 to bisect)
 
 BIG_FACES = 1500
 SMALL_FACES = 200
